@@ -8,6 +8,7 @@
      CollateCompare.v compare: termination, purity, depth panic, agreement with rank (C08)
      CollateDeep.v    the depth panic for every over-deep value; maps equal in any insertion order;
                       single-point changes of maps; refutations documenting the universe's boundary
+     CollateTrans.v   "values of one type" composes along rank-equal values (transitivity of compare)
      CollateUse.v     the ranking discharges the total_preorder hypothesis of C02 / C09 theorems
    This file re-exports them. *)
-From Verif Require Export CollateOrd CollateSort CollateBase CollateRank CollateRank2 CollateCompare CollateDeep CollateUse.
+From Verif Require Export CollateOrd CollateSort CollateBase CollateRank CollateRank2 CollateCompare CollateDeep CollateTrans CollateUse.
